@@ -87,7 +87,7 @@ fn walk_node_enter(analyzer: &mut DeclAnalyzer, node: LuaAst) {
             exprs::analyze_index_expr(analyzer, expr);
         }
         LuaAst::LuaClosureExpr(expr) => {
-            analyzer.create_scope(expr.get_range(), LuaScopeKind::Normal);
+            analyzer.create_scope(expr.get_range(), LuaScopeKind::Closure);
             exprs::analyze_closure_expr(analyzer, expr);
         }
         LuaAst::LuaTableExpr(expr) => {
